@@ -86,7 +86,15 @@ def values_leg(c, rng, wd, n):
         built = G.build(inst)
         if built is None:
             continue
-        res, snaps, escaped = runner.run(inst, built)
+        if done % 2 == 1:
+            # as the service configures it (default limits), with a log message whose fields are whole objects of
+            # the frame: the variables of the log fields share the snapshot's table
+            inst = dict(inst, maxVars=1000, maxStr=1024, maxColl=10, maxDepth=5)
+            nroots = len(inst['roots'])
+            log_msg = 'state ' + ' '.join('{v%d}' % i for i in range(min(nroots, 3)))
+            res, snaps, escaped = runner.run(inst, built, log_msg=log_msg)
+        else:
+            res, snaps, escaped = runner.run(inst, built)
         done += 1
         c.traces_validated += 1
         c.note_case(key=('values', str(inst)), nontrivial=len(inst['kind']) >= 3)
@@ -99,6 +107,15 @@ def values_leg(c, rng, wd, n):
             want_names = sorted('v%d' % i for i in range(len(inst['roots']))) if inst['maxDepth'] >= 2 else []
             if names != want_names:
                 bad = 'top frame variables %s' % names
+            for fv in s.frames[0].variables:
+                # each local names the object the frame really binds to it
+                entry = s.var_lookup.get(fv.vid)
+                want_node = inst['roots'][int(fv.name[1:])]
+                if entry is None or built.node_of.get(int(entry.hash)) != want_node:
+                    bad = 'local %s shows %s, the frame binds it to node %d (%s)' % (
+                        fv.name, (entry.type, entry.value) if entry else None, want_node,
+                        type(built.objs[want_node]).__name__)
+                    break
             for vid, v in s.var_lookup.items():
                 node = built.node_of.get(int(v.hash))
                 if node is None:
@@ -128,6 +145,58 @@ def values_leg(c, rng, wd, n):
                     return
 
 
+WATCH_HOST = '''
+def priced(price, weight, height):
+    label = 'item'
+    count = 3
+    return count  # TP:priced
+'''
+
+SCALAR_WATCHES = ['price + weight', 'weight + height', 'price * count', 'height - price', 'label + "-x"', 'label * 2',
+                  'weight / count', 'price + height', 'count + 1000', 'str(price) + label', 'price - weight',
+                  'height * weight', 'count * 7919', 'label.upper() + label']
+
+
+def scalar_watch_leg(c, wd):
+    """Every watch is evaluated against the paused frame: many watches producing fresh scalars, each compared with an
+    independent evaluation over the same locals."""
+    import sys
+    from .. import rig as R
+    mod, path, marks = R.write_host(wd, WATCH_HOST)
+    base = path.rsplit('/', 1)[-1]
+    for args in ((10.25, 72.0, 20.75), (3, 5, 8), (1.5, 2, 10 ** 12)):
+        rg = R.Rig()
+        try:
+            rg.install([{'id': 'w', 'path': base, 'line': marks['priced'], 'args': {}, 'watches': SCALAR_WATCHES}])
+            res = rg.run(mod.priced, *args, only_file=path)
+            env = dict(price=args[0], weight=args[1], height=args[2], label='item', count=3)
+            bad = None
+            snaps = rg.snapshots()
+            if res != ('ok', 3) or rg.escaped or len(snaps) != 1:
+                bad = 'no snapshot / host changed: %r %r' % (res, rg.escaped)
+            else:
+                s = snaps[0]
+                ws = [w for w in s.watches if w.source == 'WATCH']
+                if [w.expression for w in ws] != SCALAR_WATCHES:
+                    bad = 'watch list %s' % [w.expression for w in ws]
+                for w in ws:
+                    if bad:
+                        break
+                    want = eval(w.expression, {}, dict(env))
+                    v = s.var_lookup.get(w.result.vid) if (w.result is not None and w.error is None) else None
+                    if v is None or v.type != type(want).__name__ or v.value != str(want):
+                        bad = 'watch %r reported %s, the frame gives %s %r' % (
+                            w.expression, (v.type, v.value) if v else w.error, type(want).__name__, str(want))
+            c.traces_validated += 1
+            c.note_case(key=('scalar-watches', args), nontrivial=True)
+            if bad:
+                p_ = c.save_replay({'direction': 'C2S', 'kind': 'scalar-watches', 'args': list(args), 'what': bad})
+                c.violation('watches on locals %s: %s' % (env, bad), p_)
+        finally:
+            rg.close()
+    sys.modules.pop(mod.__name__, None)
+
+
 def run(c):
     quick = c.tier == 'quick'
     rng = random.Random(c.seed)
@@ -148,6 +217,7 @@ def run(c):
     c.transitions += sim.generated
     replay_behaviours(c, sim.behaviours, wd, 's')
     values_leg(c, rng, wd, 300 if quick else 6000)
+    scalar_watch_leg(c, wd)
 
 
 if __name__ == '__main__':
